@@ -134,20 +134,22 @@ func addLeaf(t Tree, r *Route, s *Segment, h Handler) (Leaf, error) {
 	}
 
 	if leaf.getSegment().Optional {
+		var shortForm Leaf
 		parent := leaf.getParent()
 		if parent.getParent() != nil {
-			_, err = addLeaf(parent.getParent(), r, parent.getSegment(), h)
+			shortForm, err = addLeaf(parent.getParent(), r, parent.getSegment(), h)
 			if err != nil {
 				return nil, errors.Wrap(err, "add optional leaf to grandparent")
 			}
 		} else {
 			// The route only has one segment, its short form is the root path ("/").
-			_, err = addLeaf(parent, r, &Segment{Pos: s.Pos, Slash: s.Slash}, h)
+			shortForm, err = addLeaf(parent, r, &Segment{Pos: s.Pos, Slash: s.Slash}, h)
 			if err != nil {
 				return nil, errors.Wrap(err, "add optional leaf to parent")
 			}
 			leaves = t.getLeaves() // The short form has been added to the same tree
 		}
+		leaf.setShortForm(shortForm)
 	}
 
 	// Determine leaf position by the priority of match styles.
